@@ -581,6 +581,32 @@ var shadowDepth int
 var lastShadowSink []byte
 
 // implR: R <conc> <blob> <chunk> <failAt> <eofWithData> ops…   (+ `E:<blob>` expect exactly, `P:<blob>` expect strict prefix & error)
+// seekSrc offers a scripted source as an io.ReadSeeker with the semantics of *bytes.Reader / *os.File: a
+// position beyond the end is legal, the next Read then reports io.EOF.
+type seekSrc struct{ *scriptSrc }
+
+func (s *seekSrc) Seek(offset int64, whence int) (int64, error) {
+	s.mu.Lock()
+	defer s.mu.Unlock()
+	var base int64
+	switch whence {
+	case io.SeekCurrent:
+		base = int64(s.rpos)
+	case io.SeekEnd:
+		base = int64(len(s.data))
+	}
+	p := base + offset
+	if p < 0 {
+		return 0, fmt.Errorf("negative position")
+	}
+	if p > int64(len(s.data)) {
+		s.rpos = len(s.data) // reads from there on report io.EOF, as for a position past the end
+	} else {
+		s.rpos = int(p)
+	}
+	return p, nil
+}
+
 // countSink keeps a running FNV-1a of what it is given and nothing else
 type countSink struct{ h uint64 }
 
@@ -659,10 +685,18 @@ func implR(f []string, o *oracleSink) string {
 	data := loadBlob(blobRef)
 	mk := func(d []byte) *scriptSrc {
 		fa, wr := srcFail(f[4])
-		return &scriptSrc{data: d, chunk: atoi(f[3]), failAt: fa, wrapEOF: wr == 1, wrapPlain: wr == 2, eofWithData: f[5] == "1" || f[5] == "3", zeroReads: fa < 0 && (f[5] == "2" || f[5] == "3")}
+		return &scriptSrc{data: d, chunk: atoi(f[3]), failAt: fa, wrapEOF: wr == 1, wrapPlain: wr == 2, eofWithData: f[5] == "1" || f[5] == "3" || f[5] == "5" || f[5] == "7", zeroReads: fa < 0 && (f[5] == "2" || f[5] == "3" || f[5] == "6" || f[5] == "7")}
 	}
 	src := mk(data)
-	zr := lz4.NewReader(src)
+	// source field >= 4: the same script, offered as an io.ReadSeeker
+	seekable := f[5] >= "4" && f[5] <= "7"
+	wrap := func(s *scriptSrc) io.Reader {
+		if seekable {
+			return &seekSrc{s}
+		}
+		return s
+	}
+	zr := lz4.NewReader(wrap(src))
 	if conc != 1 {
 		_ = zr.Apply(lz4.ConcurrencyOption(conc))
 	}
@@ -778,7 +812,7 @@ func implR(f []string, o *oracleSink) string {
 				src = mk(d)
 				data = d
 				blobRef = strings.Join(p[1:], ":")
-				zr.Reset(src)
+				zr.Reset(wrap(src))
 				delivered, cleanEOF, sawErr = nil, false, false
 				return "-"
 			case "A":
